@@ -343,6 +343,30 @@ pub fn run(cfg: &Cfg) -> Report {
                 }
             }
         }
+        // (3b) byte arrays of every length 0..=1100 (serialize_bytes), values cycling through one-, two- and
+        // three-digit numbers; Display-driven strings (collect_str), also with a Display that carries on after a
+        // failed piece, swept over every buffer length
+        for len in 0..=(if miri { 70usize } else { 1100 }) {
+            if !mine(cfg) {
+                continue;
+            }
+            let bytes: Vec<u8> = (0..len).map(|i| [7u8, 42, 255, 0, 9, 10, 99, 100, 200][(i + len) % 9]).collect();
+            ctx.cmp_hook(&V::Bytes(bytes.clone()), "all-byte-array-lengths");
+            ctx.cmp_hook(&V::Struct("S", vec![("sig", V::Bytes(bytes.clone())), ("n", V::U8(1))]), "all-byte-array-lengths");
+            if len % 16 == 0 || len < 70 {
+                ctx.sweep(&V::Seq(vec![V::Bytes(bytes), V::Bool(true)], true));
+            }
+            ctx.rep.count("byte_array_lengths_covered");
+        }
+        {
+            let mut rng = cfg.rng(35);
+            for _ in 0..(if miri { 6 } else { 400 }) {
+                let parts: Vec<String> = (0..rng.range(1, 5)).map(|_| rand_string(&mut rng, 12)).collect();
+                let v = V::Struct("D", vec![("when", V::CollectStrLossy(parts.clone())), ("k", V::Map(vec![(V::CollectStrLossy(parts), V::I8(1))], true, true))]);
+                ctx.cmp_hook(&v, "display-strings");
+                ctx.sweep(&v);
+            }
+        }
         // (4) integer boundaries
         let mut b = Vec::new();
         for p in 0..128u32 {
